@@ -192,6 +192,7 @@ impl Point {
     /// which encoding type was used (neutral, compressed, uncompressed)
     /// but not the value of the obtained point, nor whether the encoding
     /// was for a valid point.
+    #[cfg_attr(pornin_crrl_verif_cut, inline(never))]
     pub fn set_decode(&mut self, buf: &[u8]) -> u32 {
         *self = Self::NEUTRAL;
 
@@ -301,6 +302,7 @@ impl Point {
     /// is NOT the standard encoding of the neutral (standard is a single
     /// byte of of value 0x00); for a non-neutral point, the first byte
     /// is always equal to 0x02 or 0x03, never to 0x00.
+    #[cfg_attr(pornin_crrl_verif_cut, inline(never))]
     pub fn encode_compressed(self) -> [u8; 33] {
         let r = !self.isneutral();
         let iZ = GFsecp256k1::ONE / self.Z;  // this is 0 if Z = 0
@@ -1047,6 +1049,7 @@ impl Point {
     ///
     /// This operation is constant-time with regard to both the points
     /// and the scalar value.
+    #[cfg_attr(pornin_crrl_verif_cut, inline(never))]
     pub fn set_mul(&mut self, n: &Scalar) {
         // Split the scalar with the endomorphism.
         let (n0, s0, n1, s1) = Self::split_theta(n);
@@ -1145,6 +1148,7 @@ impl Point {
     ///
     /// This operation is constant-time. It is faster than using the
     /// generic multiplication on `Self::BASE`.
+    #[cfg_attr(pornin_crrl_verif_cut, inline(never))]
     pub fn set_mulgen(&mut self, n: &Scalar) {
         // TODO: use the endomorphism to speed up this computation
         // (see jq255.rs and gls254.rs for examples)
@@ -1248,6 +1252,7 @@ impl Point {
     ///
     /// THIS FUNCTION IS NOT CONSTANT-TIME; it shall be used only with
     /// public data.
+    #[cfg_attr(pornin_crrl_verif_cut, inline(never))]
     pub fn set_mul_add_mulgen_vartime(&mut self, u: &Scalar, v: &Scalar) {
         // Split the first scalar with the endomorphism.
         let (u0, s0, u1, s1) = Self::split_theta(u);
@@ -1376,6 +1381,7 @@ impl Point {
     ///
     /// THIS FUNCTION IS NOT CONSTANT-TIME; it shall be used only with
     /// public data.
+    #[cfg_attr(pornin_crrl_verif_cut, inline(never))]
     pub fn verify_helper_vartime(self,
         R: &Point, s: &Scalar, k: &Scalar) -> bool
     {
